@@ -960,10 +960,11 @@ Definition enc_sres (r : sres) : list Z :=
      head fw json ; url ; path ; eh table ; before hooks ; after hooks ; routing
    input of kind 1 (status setter):
      reason table (list of code, phrase) ; 0 code | 1 line *)
-Definition corr_C03 (inp : list Z) : list Z :=
+(* one request (input of kind 0 without its tag) *)
+Definition corr_req (inp : list Z) : list Z :=
   let fuel := length inp in
   match inp with
-  | 0%Z :: hd :: fw :: js :: r0 =>
+  | hd :: fw :: js :: r0 =>
     match dec_str r0 with Some (url, r1) =>
     match dec_str r1 with Some (path, r2) =>
     match dec_list (fun l => match l with
@@ -980,6 +981,30 @@ Definition corr_C03 (inp : list Z) : list Z :=
       enc_wsgi env (eh_of_table tbl) (mkProg bef aft rt)
     | None => bad_input end | None => bad_input end | None => bad_input end
     | None => bad_input end | None => bad_input end | None => bad_input end
+  | _ => bad_input
+  end.
+
+(* a length-prefixed block of integers *)
+Definition dec_block (l : list Z) : option (list Z * list Z) :=
+  match l with
+  | [] => None
+  | z :: r => let n := Z.to_nat z in
+              if Nat.leb n (length r) then Some (firstn n r, skipn n r) else None
+  end.
+
+(* input of kind 2: several requests served one after the other.  A response OBJECT the
+   handlers share between the requests is not changed by being applied
+   (HTTPResponse.apply copies its headers, response.py:277), so the requests are
+   independent runs of the model.  Output: one length-prefixed block per request. *)
+Definition corr_C03 (inp : list Z) : list Z :=
+  let fuel := length inp in
+  match inp with
+  | 0%Z :: r => corr_req r
+  | 2%Z :: r =>
+      match dec_list dec_block r with
+      | Some (blocks, _) => enc_list (fun b => let o := corr_req b in Z.of_nat (length o) :: o) blocks
+      | None => bad_input
+      end
   | 1%Z :: r0 =>
     match dec_list (fun l => match l with
                              | c :: r => match dec_str r with Some (m, r') => Some ((c, m), r') | None => None end
